@@ -146,5 +146,38 @@ impl WrappedWrite {
 @*/
 }
 
+// ---- the public register accessors of SubDeviceRef (src/subdevice/mod.rs): thin wrappers over the functions above ----
+impl Command {
+/*@fn file=src/command/mod.rs impl="impl Command" name=fprd props=C11
+    ensures r.command == (Reads::Fprd { address, register }), r.wkc == Some(1u16)
+@*/
+/*@fn file=src/command/mod.rs impl="impl Command" name=fpwr props=C11
+    ensures r.command == (Writes::Fpwr { address, register }), r.wkc == Some(1u16), r.len_override is None
+@*/
+}
+pub trait EtherCrabWireReadSized: EtherCrabWireRead + EtherCrabWireSized {}
+pub trait EtherCrabWireReadWrite: EtherCrabWireRead + EtherCrabWireWrite {}
+pub struct SubDeviceRef<'a> { pub maindevice: &'a MainDevice, pub configured_address: u16 }
+impl<'a> SubDeviceRef<'a> {
+/*@fn file=src/subdevice/mod.rs impl="impl<'maindevice, S> SubDeviceRef<'maindevice, S>" name=read subst="impl Into<u16>=>u16@@register.into()=>register" props=C11
+    ensures r.command == (Reads::Fprd { address: self.configured_address, register }), r.wkc == Some(1u16)
+@*/
+/*@fn file=src/subdevice/mod.rs impl="impl<'maindevice, S> SubDeviceRef<'maindevice, S>" name=write subst="impl Into<u16>=>u16@@register.into()=>register" props=C11
+    ensures r.command == (Writes::Fpwr { address: self.configured_address, register }), r.wkc == Some(1u16), r.len_override is None
+@*/
+/*@fn file=src/subdevice/mod.rs impl="impl<'maindevice, S> SubDeviceRef<'maindevice, S>" name=register_read subst="impl Into<u16>=>u16@@register.into()=>register" props=C11
+    ensures
+        // a register read of THIS device is a CHECKED read: a value is returned only if exactly one device answered
+        r is Ok ==> exists|p: ReceivedPdu| #[trigger] net_read(Reads::Fprd { address: self.configured_address, register }, T::PACKED_LEN as u16, p)
+            && p.wkc_v() == 1 && T::unpack_spec(p.data()) == Ok::<T, WireError>(r->Ok_0),
+@*/
+/*@fn file=src/subdevice/mod.rs impl="impl<'maindevice, S> SubDeviceRef<'maindevice, S>" name=register_write subst="impl Into<u16>=>u16@@register.into()=>register" props=C11
+    ensures
+        // a register write of THIS device is CHECKED too, and what is returned is what came back for it
+        r is Ok ==> exists|p: ReceivedPdu| #[trigger] net_write(Writes::Fpwr { address: self.configured_address, register }, value.packed(), None, p)
+            && p.wkc_v() == 1 && T::unpack_spec(p.data()) == Ok::<T, WireError>(r->Ok_0),
+@*/
+}
+
 } // verus!
 fn main() {}
